@@ -136,7 +136,8 @@ Record state := ST {
   w1 : w1pc; w2 : w2pc;
   run : rpc;
   ctx_done : bool;                 (* Run's context is cancelled *)
-  early_cancel : bool;             (* ghost: it was cancelled by the user before Close signalled *)
+  early_cancel : bool;             (* ghost: Run's context was cancelled by the user, or a handler's own context ended
+                                      (its loop goroutine finished), before Close signalled *)
   (* per handler *)
   lp : hid -> lpc;
   hc : hid -> hcpc;
@@ -167,6 +168,8 @@ Inductive label :=
 | LEnvCancel                 (* the user cancels Run's context *)
 | LEmit (h : hid)            (* the subscriber hands its next message to the pump *)
 | LChanClose (h : hid)       (* the subscriber closes its channel *)
+| LSubEnd (h : hid)          (* the subscription ends by itself (the broker closes it): the channel closes although nobody
+                                called Close() and the context is live *)
 | LFinish (m : mid)          (* the handler function returns (nil error): produced messages are published next *)
 | LFail (m : mid)            (* the handler function returns an error or panics (recovered by handleMessage):
                                 nothing is published, the message is Nacked next *)
@@ -237,6 +240,8 @@ Definition step (s : state) (l : label) : option state :=
       if sub_open s h && (sub_closing s h || (honour s h && hctx_done s h))
       then Some (s <| sub_open := upd (sub_open s) h false |>)
       else None
+  | LSubEnd h =>
+      if sub_open s h then Some (s <| sub_open := upd (sub_open s) h false |>) else None
   | LFinish m =>
       match mp s m with
       | MRunning => Some (s <| mp := upd (mp s) m MPublishing |>)
@@ -362,8 +367,12 @@ Definition step (s : state) (l : label) : option state :=
       | LPubClose =>
           Some (s <| lp := upd (lp s) h LWgDone |> <| pub_closes := upd (pub_closes s) h (S (pub_closes s h)) |>)
       | LWgDone =>
+          (* handlersWg.Done(); ...; the goroutine ends: its deferred cancel() ends the handler's own context
+             (folded into this step; really it runs after the short handlersLock section) *)
           Some (s <| lp := upd (lp s) h LEnd |> <| handlersWg := pred (handlersWg s) |>
-                  <| panicked := panicked s || Nat.eqb (handlersWg s) 0 |>)
+                  <| panicked := panicked s || Nat.eqb (handlersWg s) 0 |>
+                  <| hstop := upd (hstop s) h true |>
+                  <| early_cancel := early_cancel s || negb (closingCh s) |>)
       | _ => None
       end
   | LDeliver h =>
